@@ -696,6 +696,40 @@ Definition decl_safe (S : schema) (d : document) : bool :=
   forallb (fun n => go_ident_ok (field_name n) && negb (starts_with (bs "__") n)) (composites ++ frag_names ++ conds) &&
   forallb (fun k => go_ident_ok (field_name k)) keys.
 
+(** ** the names-only residue under which the generator of the current tree ([generate_s]) declares
+    pairwise distinct usable identifiers (ClientGenWfS.v); three named decidable conditions:
+    - [no_sel_names]: no pre-assigned enum type / constant name begins with "sel" (the residue of
+      the known finding decl-name-clash: a declaration coinciding with a sel<T><n> helper);
+    - [no_digit_types]: no composite type name ends in a digit (sel<T1><n1> = sel<T2><n2>);
+    - [lex_names]: every response key / composite type / fragment / type condition gives a usable
+      Go field name (every GraphQL name but "_" and names "__" + digit...), enum, operation and
+      fragment names are lexically names, enum values consist of name characters and are distinct
+      within their enum (what the lexer and [schema.New] grant, but for "_"). *)
+Definition gql_name (n : name) : bool :=
+  match n with c :: r => (is_letter c || (c =? 95)) && forallb ident_char r | [] => false end.
+
+Definition no_sel_names (S : schema) (d : document) : bool :=
+  forallb (fun x => negb (starts_with (bs "sel") x)) (map snd (fst (enum_name_map S d)) ++ map snd (const_name_map S d)).
+
+Definition no_digit_types (S : schema) : bool :=
+  forallb (fun t => negb (ends_with_digit t))
+          (flat_map (fun t => match t with DObj n _ _ | DIface n _ | DUnion n _ => [n] | _ => [] end) (s_types S)).
+
+Definition lex_names (S : schema) (d : document) : bool :=
+  let composites := flat_map (fun t => match t with
+                                       | DObj n _ _ | DIface n _ | DUnion n _ => [n]
+                                       | _ => []
+                                       end) (s_types S) in
+  let keys := flat_map (fun o => flat_map sel_keys (op_sels o)) (d_ops d) ++
+              flat_map (fun f => flat_map sel_keys (fr_sels f)) (d_frags d) in
+  let conds := flat_map (fun o => flat_map sel_conds (op_sels o)) (d_ops d) ++
+               flat_map (fun f => flat_map sel_conds (fr_sels f)) (d_frags d) in
+  forallb (fun k => go_ident_ok (field_name k)) (keys ++ composites ++ map fr_name (d_frags d) ++ conds) &&
+  forallb gql_name (map fst (schema_enums S) ++
+                    flat_map (fun o => match op_name o with Some n => [n] | None => [] end) (d_ops d) ++
+                    map fr_name (d_frags d)) &&
+  forallb (fun e : name * list name => forallb (forallb ident_char) (snd e) && nodupb (snd e)) (schema_enums S).
+
 (** known finding [blank-field-name] (names only): a composite type, fragment, type condition or
     spread named "_" - a GraphQL name; [fieldName] leaves it as it is and the struct field that holds
     the fragment is the blank identifier, which the generated UnmarshalJSON cannot refer to *)
